@@ -59,6 +59,22 @@ def do_seeded(sid):
         shutil.rmtree(d, ignore_errors=True)
 
 
+def do_neutral_patch(path):
+    """a behaviour-preserving refactoring given as a patch (selftest/refactorings/<id>/patch.diff)"""
+    name = os.path.basename(path)
+    d = make_scratch()
+    try:
+        r = sh(f"cd {d}/repo && git init -q . && git apply {path}/patch.diff")
+        if r.returncode != 0:
+            return name, {"ENV": ["patch does not apply: " + r.stderr[:160]]}
+        b = sh("go build ./...", cwd=d + "/repo")
+        if b.returncode != 0:
+            return name, {"ENV": ["does not compile: " + b.stderr[:200]]}
+        return name, run_checks(d)
+    finally:
+        shutil.rmtree(d, ignore_errors=True)
+
+
 def fixed_entries():
     out = []
     for l in open(os.path.join(HERE, "known_findings.txt")):
@@ -102,6 +118,8 @@ def do_revert(item):
 
 
 def do_neutral(path):
+    if os.path.isdir(path):
+        return do_neutral_patch(path)
     name = os.path.basename(path)[:-5]
     d = make_scratch()
     try:
@@ -157,6 +175,9 @@ def main():
             print("BASELINE NOT SILENT:", base)
     seeded = sorted(x for x in os.listdir(os.path.join(HERE, "seeded")) if os.path.isdir(os.path.join(HERE, "seeded", x)))
     neutral = sorted(os.path.join(HERE, "selftest", "neutral", x) for x in os.listdir(os.path.join(HERE, "selftest", "neutral")) if x.endswith(".json"))
+    rdir = os.path.join(HERE, "selftest", "refactorings")
+    if os.path.isdir(rdir):
+        neutral += sorted(os.path.join(rdir, x) for x in os.listdir(rdir) if os.path.exists(os.path.join(rdir, x, "patch.diff")))
     if only:
         seeded = [s for s in seeded if only in s]
         neutral = [n for n in neutral if only in n]
@@ -210,7 +231,7 @@ def main():
     print(f"reverted fixes: {len(res['reverted_fixes'])}, skipped {len(rev_skipped)}, not reported by their own check: {rev_missed}")
     noisy = []
     for n in neutral:
-        name = os.path.basename(n)[:-5]
+        name = os.path.basename(n)[:-5] if n.endswith(".json") else os.path.basename(n)
         hits = res["neutral"][name]
         if hits:
             noisy.append(name)
